@@ -3,8 +3,9 @@
 L1: theorems of NfcVerif.Props.C11 about the executable model NfcVerif.Model.Pdu
     (transcription of nfc/llcp/pdu.py): round trip for all PDU types, length,
     decode raises nothing but DecodeError for any octet string (including
-    aggregates), the decoder agrees with an independent reading of the frame
-    formats, an aggregated PDU is decoded from its own octets.
+    aggregates), the decoder equals an independent reading of the frame
+    formats on every octet string, a decoded PDU re-encodes to its normal
+    form, an aggregated PDU is decoded from its own octets.
 L2: the model is compared with the real nfc.llcp.pdu: decode() on every octet
     string of <= 2 (thorough: <= 3) octets, every 2-octet header with tails,
     mutated encodings, random strings up to 2200 octets, aggregates, decode with
@@ -33,7 +34,11 @@ THEOREMS = [
     "NfcVerif.C11.agf_locality",
     "NfcVerif.C11.decode_at_locality",
     "NfcVerif.C11.nested_eq_decode",
-    "NfcVerif.C11.pdu_impl_refines_spec_partial",
+    "NfcVerif.C11.pdu_impl_refines_spec",
+    "NfcVerif.C11.pdu_impl_refines_spec_iff",
+    "NfcVerif.C11.pdu_decode_reencode",
+    "NfcVerif.C11.pdu_norm_idem",
+    "NfcVerif.C11.pdu_norm_valid",
 ]
 
 SIMPLE = ["symm", "pax", "ui", "connect", "disc", "cc", "dm", "frmr", "snl", "dps", "i", "rr", "rnr", "unknown"]
